@@ -36,7 +36,7 @@ META = {"C04": {
     "assumptions": ["graphs are acyclic and dependency-closed (well-formed phases only)",
                     "the controller is reset at the start of each step, as the interpreter does"],
     "probes": ["request_executed", "request_planned", "request_new", "cutoff_then_step",
-               "guard_false_with_dependents", "nested_request", "real_guard_false"],
+               "guard_false_with_dependents", "nested_request", "real_guard_false", "abandon_wired"],
 }}
 
 
@@ -238,11 +238,16 @@ class Monitor:
             if tape.chance(0.3, "req+event"):
                 ev = ("EV", self.step_no, stmt.id)
                 self.expected_events.append(ev)
-            form = tape.draw(3, "reqform")
+            form = tape.draw(5, "reqform")
             if form == 0:
                 return (ev, ids)
             if form == 1:
                 return (ev, tuple(ids))
+            if form == 3:
+                # any iterable is a valid request, also one that can be walked only once
+                return (ev, iter(ids))
+            if form == 4:
+                return (ev, (i for i in ids))
             return (ev, OrdFS(ids, self.chooser, "req"))
 
 
@@ -519,6 +524,8 @@ def run_c04(ctx):
                 else:
                     roots = [i for i in range(pn) if tape.chance(0.3, "root")] or [tape.draw(pn, "root1")]
                     exec_ids = OrdFS([pids[r] for r in roots], chooser, "roots")
+                    if tape.chance(0.2, "roots_iter"):
+                        exec_ids = iter(list(exec_ids))
                 mon.begin_step(roots, pname)
                 if prev_cut:
                     ctx.count("probe:cutoff_then_step")
@@ -555,9 +562,19 @@ def run_c04(ctx):
                     if prev_cut:
                         ctx.count("probe:cutoff_then_step")
                     cut = False
+                    # the caller may abandon a step at any event it receives (close / drop the
+                    # generator): the next step is still a full step
+                    abandon = tape.chance(0.15, "abandon_wired")
                     try:
-                        for ev in interp.run_single_step():
+                        sgen = interp.run_single_step()
+                        for ev in sgen:
                             mon.received_events.append(ev)
+                            if abandon and tape.chance(0.5, "abandon_here"):
+                                sgen.close()
+                                cut = True
+                                ctx.count("fault:cutoff_abandon")
+                                ctx.count("probe:abandon_wired")
+                                break
                     except (FailStepException, TransitionEvent, Foreign) as e:
                         if e is not mon.cut:
                             mon.viol("exception-identity", "interpreter raised %r, target raised %r"
@@ -570,36 +587,50 @@ def run_c04(ctx):
                     prev_cut = cut
                     max_visits = max(max_visits, len(mon.visited))
         else:
-            # interp.run(): step boundaries are StepCompleted / StepFailed events
-            mon.begin_step(list(sinks_of[interp.next_phase]), interp.next_phase)
-            gen = interp.run(max_steps=n_steps)
+            # interp.run(): step boundaries are StepCompleted / StepFailed events; the caller may
+            # abandon run() at an event in the middle of a step and call run() again
             events = 0
             foreign = aborted = False
-            try:
-                for ev in gen:
-                    events += 1
-                    if isinstance(ev, (StepCompleted, StepFailed)):
-                        cut = mon.cut is not None
-                        if isinstance(ev, StepFailed) and not isinstance(mon.cut, FailStepException):
-                            mon.viol("step-protocol", "StepFailed without a FailStep cut-off")
-                        if isinstance(ev, StepCompleted) and isinstance(mon.cut, FailStepException):
-                            mon.viol("step-protocol", "StepCompleted after a FailStep cut-off")
-                        if not cut:
-                            mon.end_step_complete()
-                        max_visits = max(max_visits, len(mon.visited))
-                        if cut:
-                            ctx.count("probe:cutoff_then_step")
-                        if events > 40 or mon.step_no > 12:
-                            gen.close()
-                            aborted = True
-                            break
-                        mon.begin_step(list(sinks_of[interp.next_phase]), interp.next_phase)
-                    else:
-                        mon.received_events.append(ev)
-            except Foreign as e:
-                foreign = True
-                if e is not mon.cut:
-                    mon.viol("exception-identity", "run() raised %r, target raised %r" % (e, mon.cut))
+            segments = 0
+            while True:
+                segments += 1
+                abandoned = False
+                mon.begin_step(list(sinks_of[interp.next_phase]), interp.next_phase)
+                gen = interp.run(max_steps=n_steps)
+                abandon = segments <= 3 and tape.chance(0.15, "abandon_run")
+                try:
+                    for ev in gen:
+                        events += 1
+                        if isinstance(ev, (StepCompleted, StepFailed)):
+                            cut = mon.cut is not None
+                            if isinstance(ev, StepFailed) and not isinstance(mon.cut, FailStepException):
+                                mon.viol("step-protocol", "StepFailed without a FailStep cut-off")
+                            if isinstance(ev, StepCompleted) and isinstance(mon.cut, FailStepException):
+                                mon.viol("step-protocol", "StepCompleted after a FailStep cut-off")
+                            if not cut:
+                                mon.end_step_complete()
+                            max_visits = max(max_visits, len(mon.visited))
+                            if cut:
+                                ctx.count("probe:cutoff_then_step")
+                            if events > 40 or mon.step_no > 12:
+                                gen.close()
+                                aborted = True
+                                break
+                            mon.begin_step(list(sinks_of[interp.next_phase]), interp.next_phase)
+                        else:
+                            mon.received_events.append(ev)
+                            if abandon and tape.chance(0.5, "abandon_here"):
+                                gen.close()
+                                abandoned = True
+                                ctx.count("fault:cutoff_abandon")
+                                ctx.count("probe:abandon_wired")
+                                break
+                except Foreign as e:
+                    foreign = True
+                    if e is not mon.cut:
+                        mon.viol("exception-identity", "run() raised %r, target raised %r" % (e, mon.cut))
+                if not abandoned:
+                    break
             if not foreign and not aborted and mon.visited:
                 mon.viol("step-protocol", "statements visited after run() reached max_steps")
 
